@@ -199,6 +199,7 @@ func (p *C07) Gen(seed uint64, i int, tier string) *scen.Scenario {
 		}
 	}
 	inherit := false
+	prevL := 1
 	nProbes := r.Range(2, 8)
 	for k := 0; k < nProbes; k++ {
 		if r.Chance(1, 2) {
@@ -210,6 +211,32 @@ func (p *C07) Gen(seed uint64, i int, tier string) *scen.Scenario {
 			}
 		}
 		l := r.Range(1, depth)
+		if k > 0 && r.Chance(1, 2) {
+			l = prevL // the logger that printed before prints again
+		}
+		prevL = l
+		if k > 0 && r.Chance(1, 2) {
+			// log - mutate - log: the configuration changes after records were already printed from it
+			// (an ancestor, the logger itself or a descendant gets more attributes or other context keys)
+			for q := r.Range(1, 2); q > 0; q-- {
+				d := r.Range(1, depth)
+				if r.Chance(2, 3) {
+					d = r.Range(1, l) // loggers are numbered root first: an ancestor-or-self more often than not
+				}
+				switch r.Intn(4) {
+				case 0:
+					sc.Setup = append(sc.Setup, scen.Op{Op: "set", L: d, Kind: "ctxkeys", Keys: []scen.CtxKey{{Kind: scen.Pick(r, []string{"s", "st"}), Name: g.key()}}})
+				case 1:
+					sc.Setup = append(sc.Setup, scen.Op{Op: "set", L: d, Kind: "args", Args: []scen.Arg{{K: "key", S: g.key()}, {K: "i", I: g.nextVal()}}})
+				default:
+					o := scen.Op{Op: "set", L: d, Kind: "attrs"}
+					for a := r.Range(1, 3); a > 0; a-- {
+						o.Args = append(o.Args, g.scalar(g.key()))
+					}
+					sc.Setup = append(sc.Setup, o)
+				}
+			}
+		}
 		n := 0
 		switch r.Intn(6) {
 		case 0:
